@@ -1,6 +1,6 @@
 INIT MCInit
 NEXT FedNext
-CONSTANT V = 10
+CONSTANT V = 11
 CONSTANT MaxNew = 1
 CONSTANT MaxDeliver = 2
 CONSTANT TsPool = {1}
@@ -9,7 +9,7 @@ CONSTANT Tampers = {"none", "unsigned", "unprotected", "protected", "nosig"}
 CONSTANT Servers <- ServersImpl
 CONSTANT NewIds <- NewIdsImpl
 CONSTANT IdLess <- IdLessImpl
-CONSTANT BaseNames = {"public", "invite", "restricted", "nopl"}
+CONSTANT BaseNames = {"public", "invite", "restricted"}
 INVARIANT ViewsClosed RedactTypedOk TamperEffect SameViewSameState HonestNeverRejected
 INVARIANT Emit
 CHECK_DEADLOCK FALSE
